@@ -10,6 +10,13 @@
      periodic: left / right values at (lo, t_j) / (hi, t_j), the left data on the left points, the right on the right. *)
 EXTENDS Integers, Sequences, FiniteSets
 F == <<<<2, -1, 1>>, <<-1, 3, 0>>, <<1, 1, -2>>>>
+\* shared sampler objects: the successive draws (row sets <<x, t>>) of the underlying sampler.  A static sampler keeps its
+\* FIRST draw for ever (StaticAbs.tla, property C15); a non-static one hands out the next draw at every call, to whichever
+\* condition asks
+SDraws == << <<<<<<1, 1>>, <<-2, 3>>>>, <<<<0, -1>>, <<2, 2>>>>, <<<<3, 0>>, <<-1, -1>>>>>>,
+             <<<<<<2, 0>>, <<-1, 2>>, <<1, 1>>>>, <<<<0, 3>>, <<-2, -2>>, <<1, -1>>>>>>,
+             <<<<<<1, 0>>, <<2, -1>>>>, <<<<-1, 3>>, <<0, 2>>>>, <<<<3, 1>>, <<-2, 0>>>>>> >>
+DrawOf(sid, n) == SDraws[sid][((n - 1) % Len(SDraws[sid])) + 1]
 RECURSIVE SumS(_)
 SumS(s) == IF s = <<>> THEN 0 ELSE Head(s) + SumS(Tail(s))
 U(c, x, t) == c.model[1] * x + c.model[2] * t + c.model[3]
